@@ -314,13 +314,13 @@ theorem verify_tapeFree (cs : Suite) (σ : Signature) (pk : PublicKey) (bases : 
     TapeFree (verify cs σ pk bases msg) := by
   unfold verify
   exact .bind (.pw _ _ _) fun _ => .bind (.idx _ _) fun _ => .bind (.pw _ _ _) fun _ =>
-    .bind (.pw _ _ _) fun _ => .ite (.pure _) (.ite (.pure _) (.pure _))
+    .bind (.pw _ _ _) fun _ => .ite (.pure _) (.ite (.pure _) (.ite (.pure _) (.pure _)))
 
 theorem verifyMultiattr_tapeFree (cs : Suite) (σ : Signature) (pk : PublicKey) (bases msgs : List Int) :
     TapeFree (verifyMultiattr cs σ pk bases msgs) := by
   unfold verifyMultiattr
   exact .ite .panic (.bind (.pw _ _ _) fun _ => .bind (prodPow_tapeFree _ _ _ _ _) fun _ =>
-    .bind (.pw _ _ _) fun _ => .ite (.pure _) (.ite (.pure _) (.pure _)))
+    .bind (.pw _ _ _) fun _ => .ite (.pure _) (.ite (.pure _) (.ite (.pure _) (.pure _))))
 
 /-- `verify_multiattr` does not touch the tape. -/
 theorem verifyMultiattr_tape {cs : Suite} {σ : Signature} {pk : PublicKey} {bases msgs : List Int}
